@@ -285,7 +285,7 @@ let () =
                if int_of_z mw <> kw then mism "fidelity" op "MODEL Prim weight %d differs from Kruskal %d" (int_of_z mw) kw;
                if small then begin
                  bump "checker_runs_on_model_output";
-                 if not (check_msf !g mes) then mism "fidelity" op "MODEL forest %s fails the certificate checker check_msf" (edges_str mes)
+                 if not (check_msf !g mes) then mism "fidelity" op "MODEL forest %s fails the proved checker check_msf" (edges_str mes)
                end;
                if is_panic || res = "HANG" then mism "api" op "implementation %s" res else
                (match split_on res ";" with
@@ -294,7 +294,7 @@ let () =
                   let sum = List.fold_left (fun a e -> a + int_of_z (e_w e)) 0 ies in
                   if w <> string_of_int sum then mism "api" op "Weight() %s is not the sum %d of Edges() %s" w sum es
                   else if small && (bump "checker_runs_on_impl_output"; not (check_msf !g ies)) then
-                    mism "api" op "Edges() %s is not a minimum spanning forest (certificate checker check_msf: graph edges, acyclic, cycle property for every graph edge); Kruskal weight %d" es kw
+                    mism "api" op "Edges() %s is not a minimum spanning forest (proved checker check_msf: graph edges, acyclic, cycle property for every graph edge); Kruskal weight %d" es kw
                   else if sum <> kw then
                     mism "api" op "forest weight %d, minimum (Kruskal reference) %d: %s" sum kw es
                   else if es = edges_str mes then bump "mst_same_edges_as_model" else bump "mst_other_minimum_forest_than_model"
